@@ -1,8 +1,8 @@
 SPECIFICATION TSpec
 CONSTANTS
-  Transport = "tls"
+  Transport = "quic"
   ResidueAfterFailure = FALSE
-  ShortCookieRead = TRUE
+  ShortCookieRead = FALSE
   DialResetsData = TRUE
   Alpns = {}
   Alphabet = {}
@@ -11,5 +11,5 @@ CONSTANTS
   MaxDials = 0
   MaxCalls = 0
   MaxStore = 0
-PROPERTIES StrictProp
+INVARIANTS TSuccessOnlyIf TIgnoresNonCritical TKeysAgree TPoolIsIssued TPoolReturned TDestination TNoResidue
 POSTCONDITION Consumed
